@@ -1313,6 +1313,10 @@ mod convert {
         ) -> ConvertResult<(LineString, DirectoryId, Option<FileInfo>)> {
             let from_name =
                 Self::convert_string(from_file.path_name(), from_dwarf, encoding, line_strings)?;
+            // `LineProgram::add_file` requires a non-empty name for these versions.
+            if encoding.version <= 4 && from_name == LineString::String(Vec::new()) {
+                return Err(ConvertError::InvalidAttributeValue);
+            }
             let from_dir = from_file.directory_index();
             if from_dir >= dirs.len() as u64 {
                 return Err(ConvertError::InvalidDirectoryIndex);
